@@ -113,17 +113,20 @@ class LedgerMonitor(Monitor):
 def strategy_ledger(mon, name):
     """Normalised ledger of one strategy: per order (in its own creation order) the economic facts,
     status changes with simulated times, fragments and profit; ids removed."""
-    vids = []
-    for r in mon.rows:
-        if r[1] == name:
-            vids.append(r[0])
-    vids.sort()
-    idx = {v: i for i, v in enumerate(vids)}
+    # orders are numbered per market in creation order and listed market by market: the order in which the markets of a
+    # run are processed (it follows the creation order of the streams) is not a result
+    rows = sorted((r for r in mon.rows if r[1] == name), key=lambda r: (str(r[2]), r[0]))
+    idx = {}
+    per_market = {}
+    for r in rows:
+        k = per_market.get(r[2], 0)
+        idx[r[0]] = k
+        per_market[r[2]] = k + 1
     st = {}
     for e in mon.events:
         if e[0] == "st" and e[1] in idx:
-            st.setdefault(idx[e[1]], []).append((e[3], e[4]))
+            st.setdefault(e[1], []).append((e[3], e[4]))
     out = []
-    for r in sorted((r for r in mon.rows if r[1] == name), key=lambda r: r[0]):
-        out.append((idx[r[0]],) + tuple(r[2:]) + (tuple(st.get(idx[r[0]], ())),))
+    for r in rows:
+        out.append((idx[r[0]],) + tuple(r[2:]) + (tuple(st.get(r[0], ())),))
     return out
